@@ -277,6 +277,68 @@ def put_and_readback(seed, n=14, utf8_only=False, alphabet_paths=None, td=None, 
         box.destroy()
 
 
+def timed_put(seed):
+    """one trash-put with several arguments while the virtual clock advances with every operation of the run: each
+    DeletionDate must lie in the window in which ITS argument was handled (observations f = 'timed')"""
+    import datetime as _d
+    rnd = random.Random('timed|%s' % seed)
+    box = Box(seed)
+    obs = []
+    try:
+        now = rnd.choice([(2020, 2, 29, 23, 58, 1), (1999, 12, 31, 23, 40, 59), (2001, 1, 1, 0, 0, 0),
+                          (rnd.randint(1971, 2099), rnd.randint(1, 12), rnd.randint(1, 28), rnd.randint(0, 23), rnd.randint(0, 59), rnd.randint(0, 59))])
+        step = rnd.choice([1, 7, 61, 3601])
+        rootb = os.fsencode(box.root)
+        n = rnd.choice([2, 3, 4])
+        entries = []
+        for i in range(n):
+            vol = rnd.choice(['R', 'V1'])
+            top = rootb if vol == 'R' else rootb + b'/m1'
+            d = top + b'/s%d' % i
+            os.mkdir(d)
+            full = d + b'/' + rand_name(rnd, maxlen=40, utf8_only=True)
+            kind = rnd.choice(['file', 'dir', 'tree'])
+            if kind == 'file':
+                with open(full, 'wb') as f:
+                    f.write(b'content %d' % i)
+            else:
+                os.mkdir(full)
+                if kind == 'tree':
+                    for k in range(rnd.randint(1, 6)):
+                        with open(full + b'/f%d' % k, 'wb') as f:
+                            f.write(b'x' * k)
+            entries.append({'path': full, 'vol': vol, 'top': top})
+        inter = rnd.random() < 0.3
+        argv = (['-i'] if inter else []) + ['--'] + [e['path'] for e in entries]
+        res = runner.run('trash-put', argv, os.path.join(box.root, 'cwd'), box.env(), stdin=b'y\n' * n if inter else b'',
+                         shim_cfg=box.shim(trace=True, clock_step=step), now=now, timeout=30)
+        t0 = _d.datetime(*now)
+        tup = lambda k: list((t0 + _d.timedelta(seconds=step * k)).timetuple()[:6])
+        for e in entries:
+            rel = os.fsdecode(e['path'])[len(box.root) + 1:]
+            touching = [ev['seq'] for ev in res.get('trace', []) if 'seq' in ev and any(
+                r is not None and (r == rel or r.startswith(rel + '/')) for r in (ev.get('raw') or []))]
+            tdir = os.fsencode(box.tdir('home' if e['vol'] == 'R' else 't2'))
+            content = None
+            try:
+                for fn in os.listdir(tdir + b'/info'):
+                    c = open(tdir + b'/info/' + fn, 'rb').read()
+                    pth, _ = world.parse_info(c)
+                    if pth == (e['path'] if e['vol'] == 'R' else e['path'][len(e['top']) + 1:]):
+                        content = c
+            except OSError:
+                pass
+            if content is None or not touching or os.path.lexists(e['path']):
+                obs.append({'f': 'broken', 'note': 'timed put: %r was not trashed (exit %s, %s)' % (
+                    e['path'], res['exit'], res['stderr'][-200:].decode('utf-8', 'replace'))})
+                continue
+            obs.append({'f': 'timed', 'content': B(content), 'lo': tup(min(touching) - 1), 'hi': tup(max(touching)),
+                        'note': 'step %d s, argument %d of %d' % (step, entries.index(e) + 1, n)})
+        return obs
+    finally:
+        box.destroy()
+
+
 def glob_escape(b):
     out = bytearray()
     for c in b:
@@ -985,7 +1047,7 @@ def foreign_restore(seed, n=6, occupied=False):
 # driver
 
 KINDS = {'putrb': put_and_readback, 'foreign': foreign_readers, 'expiry': expiry, 'rm': rm_patterns,
-         'reply': restore_replies, 'scope': restore_scope, 'frestore': foreign_restore}
+         'reply': restore_replies, 'scope': restore_scope, 'frestore': foreign_restore, 'timed': timed_put}
 
 
 def _job(args):
